@@ -490,6 +490,21 @@ pub fn make_bolt11(hash: [u8; 32], amount_msat: u64, now_secs: u64) -> lightning
     )
 }
 
+/// the same invoice before it is signed (what SignInvoice is handed)
+pub fn make_raw_bolt11(hash: [u8; 32], amount_msat: u64, now_secs: u64) -> lightning_signer::lightning_invoice::RawBolt11Invoice {
+    use lightning_signer::bitcoin::hashes::{sha256::Hash as Sha256Hash, Hash};
+    use lightning_signer::lightning::types::payment::PaymentSecret;
+    use lightning_signer::lightning_invoice::{Currency, InvoiceBuilder};
+    let b = InvoiceBuilder::new(Currency::Regtest)
+        .description("verif".into())
+        .payment_hash(Sha256Hash::from_byte_array(hash))
+        .payment_secret(PaymentSecret([7; 32]))
+        .duration_since_epoch(Duration::from_secs(now_secs))
+        .min_final_cltv_expiry_delta(144);
+    let b = if amount_msat > 0 { b.amount_milli_satoshis(amount_msat) } else { b };
+    b.build_raw().expect("raw invoice")
+}
+
 // ---------------------------------------------------------------- snapshots (C10 / C11 monitors)
 
 use lightning_signer::channel::ChannelSlot;
@@ -542,10 +557,8 @@ pub fn fingerprint(node: &Node) -> Vec<(String, String)> {
             .collect();
         invs.sort();
         out.push(("invoices".to_string(), invs.join(",")));
-        let mut issued: Vec<String> =
-            st.issued_invoices.iter().map(|(h, p)| format!("{}:{}", hex::encode(h.0), p.amount_msat)).collect();
-        issued.sort();
-        out.push(("issued_invoices".to_string(), issued.join(",")));
+// (the invoices the node ISSUED are in fingerprint_full only: sign_bolt11_invoice writes nothing, they travel
+        // with the next write of the node entry, and C11 lists the approved invoices, not these)
         out.push(("hwm".to_string(), st.dbid_high_water_mark.to_string()));
         // the payment ledger as far as it carries value: (hash, channel) -> in-flight amounts.
         // Entries without value are left out: a restart rebuilds the ledger from the current
